@@ -4097,7 +4097,7 @@ static hawk_nde_t* parse_in (hawk_t* hawk, const hawk_loc_t* xloc)
 		}
 
 		tmp = new_exp_bin_node(hawk, xloc, HAWK_BINOP_IN, left, right);
-		if (HAWK_UNLIKELY(!left)) goto oops;
+		if (HAWK_UNLIKELY(!tmp)) goto oops;
 
 		left = tmp;
 		right = HAWK_NULL;
